@@ -503,9 +503,73 @@ def r_intclass(c):
          "pytato/scalar_expr.py:88", nontrivial=False)
 
 
+def r_symbolic_sibling(c):
+    """padding: for an axis of SYMBOLIC length the upper guard compares with a binding
+    (`bindings[name] = V; ... Variable(name)`), for a static length with the value
+    itself.  The two arms of `isinstance(axis_len, Array)` must build the same
+    expression once the binding is written out -- the symbolic arm is reached by no
+    test with a static shape.  Case-split evaluation (pta/symrun.py) of one iteration
+    up to and including that `if`, then `Variable(<key>)` replaced by what was stored
+    under <key>."""
+    m = c.model
+    import re
+    from pta import symrun
+    fd0 = m.func("pytato.pad._get_constant_padded_idx_lambda")
+    where = m.loc(m.module_of(fd0), fd0)
+    fd = m.inlined(fd0)
+    found = 0
+    for loop in ast.walk(fd):
+        if not isinstance(loop, ast.For):
+            continue
+        ifs = [st for st in loop.body if isinstance(st, ast.If) and st.orelse
+               and re.fullmatch(r"isinstance\((.+), Array\)", ast.unparse(st.test))]
+        if len(ifs) != 1:
+            continue
+        iff = ifs[0]
+
+        def assigned(block):
+            return {t.id for st in block for a in ast.walk(st) if isinstance(a, ast.Assign)
+                    for t in a.targets if isinstance(t, ast.Name)}
+        both = assigned(iff.body) & assigned(iff.orelse)
+        if len(both) != 1:
+            raise AnalysisError("R16-DECISION: cannot tell which expression the two arms of "
+                                "isinstance(axis_len, Array) in pad build")
+        acc = both.pop()
+        probe = ast.Expr(value=ast.Call(func=ast.Name(id="__result__", ctx=ast.Load()),
+                                        args=[ast.Name(id=acc, ctx=ast.Load())], keywords=[]))
+        idx = loop.body.index(iff)
+        tbl = symrun.table(loop.body[:idx + 1] + [probe], lambda t: None)
+        res = {}
+        for cs, ev in tbl.items():
+            cs = dict(cs)
+            key = [v for k, v in cs.items()
+                   if re.fullmatch(r"isinstance\((.+), Array\)", k)]
+            if len(key) != 1 or len(cs) != 1:
+                raise AnalysisError("R16-DECISION: the arms of isinstance(axis_len, Array) in "
+                                    "pad depend on further tests; cannot compare them")
+            r = [e for e in ev if e[0] == "call" and e[1] == "__result__"][0][2][0]
+            for e in ev:
+                if e[0] == "store":
+                    for ctor in ("prim.Variable", "Variable", "p.Variable"):
+                        r = r.replace(f"{ctor}({e[2]})", e[3])
+            res[key[0]] = r
+        if set(res) != {True, False}:
+            continue
+        found += 1
+        c.check(res[True] == res[False], "R16-DECISION", "pad._get_constant_padded_idx_lambda",
+                "symbolic-length-arm-builds-the-static-arm's-expression", where,
+                f"for a symbolic axis length the guard is `{res[True][:110]}`, for a static one "
+                f"`{res[False][:110]}` (bindings written out): padding an array with a "
+                "symbolic shape computes something else than padding the same array with "
+                "its shape known")
+    if not found:
+        raise AnalysisError("anchor vanished: the two arms of isinstance(axis_len, Array) in "
+                            "pad's index lambda")
+
+
 SPEC = Spec(
     prop="C16",
-    rules=[r_route, r_decision, r_bindnames, r_broadcast, r_state, r_intclass],
+    rules=[r_route, r_decision, r_bindnames, r_broadcast, r_state, r_intclass, r_symbolic_sibling],
     floors={"R16-ROUTE": 12, "R16-DECISION": 9, "R16-BINDNAMES": 2, "R16-BROADCAST": 7,
             "R16-STATE": 1, "R16-INTCLASS": 1},
     explanation=(
@@ -532,7 +596,7 @@ SPEC = Spec(
         "component compared with another literal must be integer-proven or "
         "reviewed. R16-STATE: pytato.utils keeps no state that outlives a call (no "
         "memo of verdicts keyed by id()). "
-        "R16-INTCLASS: an integer test on a shape component, an index or a reduction bound uses INT_CLASSES, never bare int (NumPy integers are accepted there)."),
+        "R16-INTCLASS: an integer test on a shape component, an index or a reduction bound uses INT_CLASSES, never bare int (NumPy integers are accepted there). R16-DECISION also (sibling agreement by case-split evaluation): in pad's index lambda the arm for a symbolic axis length builds, once its binding is written out, the very expression the arm for a static length builds."),
     not_decided=(
         "That one compiled kernel is right for every size (behaviour of generated "
         "code) and that inferred shapes equal concrete shapes under every "
